@@ -351,6 +351,40 @@ class Driver(object):
                 self.story = None
                 return op
             self.script = []
+        elif "filteredstory" in self.profile and not getattr(self, "did_filtered", False) \
+                and rng.random() < self.profile["filteredstory"]:
+            # a webentity on two prefixes (scheme variations); in the LATER prefix the first page has links, but only
+            # links that the switches of the request leave out (outbound only / internal only); then the answer is
+            # paged through one source page at a time under each combination of switches, prefixes in both orders
+            from impl import stems_of
+            st = stems_of(u.host_prefix())
+            if len(st) >= 2 and st[0] in (b"s:http|", b"s:https|") and len(u.paths) >= 3:
+                self.did_filtered = True
+                self.fresh_n += 1
+                flip = b"s:https|" if st[0] == b"s:http|" else b"s:http|"
+                host = b"".join(st[1:]) + (b"h:f%d|" % self.fresh_n)
+                a_, b_ = st[0] + host, flip + host
+                pth = sorted(rng.sample(list(u.paths), 3))
+                if rng.random() < 0.3:
+                    rng.shuffle(pth)
+                other = rng.choice([l for l in u.lrus if not l.startswith((a_, b_))] or [u.page()])
+                pg = [a_ + pth[0], a_ + pth[1], b_ + pth[0], b_ + pth[2]]
+                only_out = [(a_ + pth[1], a_ + pth[0]), (b_ + pth[0], other), (b_ + pth[2], a_ + pth[0])]
+                only_int = [(a_ + pth[1], other), (b_ + pth[0], a_ + pth[0]), (b_ + pth[2], other)]
+                pairs = only_out if rng.random() < 0.6 else only_int
+
+                def pag(io, rev, a_=a_, b_=b_):
+                    def f(we_):
+                        own = [w for w, ps in we_.items() if a_ in ps and b_ in ps]
+                        return {"op": "PagLinks", "id": own[0], "ps": [b_, a_] if rev else [a_, b_], "k": 1,
+                                "int": io[0], "out": io[1], "token": None} if own else None
+                    return f
+                combos = [((True, False), False), ((False, True), False), ((True, True), False), ((True, False), True),
+                          ((False, True), True)]
+                rng.shuffle(combos)
+                self.script = [lambda we_: {"op": "CreateWe", "ps": [a_, b_]},
+                               lambda we_: {"op": "AddPages", "ls": pg, "cr": True},
+                               lambda we_: {"op": "AddLinks", "pairs": pairs}] + [pag(io, rev) for io, rev in combos[:4]]
         elif self.default.get("k") == "never" and not self.did_nested and rng.random() < self.profile.get("nestedstory", 0.12):
             # no automatic creation: paths first (unmarked), then a broad webentity, then a site declared with
             # its nested variations on nodes that all exist already, then its bare prefix moved elsewhere
